@@ -444,7 +444,8 @@ def run(ctx):
                 paths, it, err = K.run_absint(f, fb.name, assume=[("^flags$", lo, lo)])
                 ok = paths is not None and len(paths) == 1 and outcome_str(paths[0].outcome) == "return " + want
                 ctx.ob("R-REG", "Action::from_flags[flags=%d]" % lo, ok, "from_flags(%d) is %s (bit 0 decides)" % (lo, want), where=fb.loc)
-        paths, it, err = K.run_absint(f, ib.name)
+        # the small predicates of Action itself (`is_announce`, `is_withdraw`) are read through
+        paths, it, err = K.run_absint(f, ib.name, inline=lambda res: res.startswith("rtr::payload::Action::"))
         got = sorted((tuple(c[0] for c in p.conds), outcome_str(p.outcome)) for p in (paths or []))
         ctx.ob("R-REG", "Action::into_flags", got == [(("self is Announce",), "return 1"), (("self is Withdraw",), "return 0")],
                "into_flags: Announce → 1, Withdraw → 0 (inverse of from_flags on bit 0)", where=ib.loc, detail=got)
